@@ -135,7 +135,9 @@ func (w *ephWorld) intact() (bool, string) {
 	}
 	ok, lease, val := w.keyState()
 	if !ok {
-		if w.holder >= 0 && w.holder < len(w.regs) && awaitClosed(w.regs[w.holder].expiry, 30*w.tick) {
+		// on etcd a lease can run out by itself when keepalives starve under load; on Redis time is
+		// virtual (miniredis only moves by FastForward), so a vanished key was deleted by somebody
+		if w.efix != nil && w.holder >= 0 && w.holder < len(w.regs) && awaitClosed(w.regs[w.holder].expiry, 30*w.tick) {
 			return false, errEnvLapse
 		}
 		return false, "the key is gone (and its owner was not notified)"
@@ -448,6 +450,20 @@ func runEph(c EphCase, efix *etcdFix, rfix *redisFix, stores []store.Store, rec 
 			i := s.Who % n
 			r := w.regs[i]
 			if !r.believes {
+				// a registrant that has been told about its lapse still calls its (now stale)
+				// deregistration function later — selfmon and calcium do so in a deferred call;
+				// after the notice that call must not touch a key somebody else owns by now
+				if r.stop != nil && w.holder != holderNone && w.holder != -2 && w.holder != i {
+					st := r.stop
+					r.stop = nil
+					st()
+					if bad, discard, why := w.damaged(); discard {
+						return nil
+					} else if bad {
+						return w.fail("stale-stop-after-noticed-lapse-damaged-successor-key", "%s: registrant %d had been notified of its lapse, %s holds the key now; %d then called its old deregistration function: the successor's key is damaged: %s", where, i, w.holderName(), i, why)
+					}
+					rec.label("stale-stop-after-noticed-lapse=harmless")
+				}
 				continue
 			}
 			r.stop()
